@@ -5,24 +5,37 @@
    cursor 0 — `swap_same`), and the output stream continues exactly as if no swap had happened: running
    n samples, swapping, running m more equals running n+m samples uninterrupted (`now` keeps counting),
    for any number of consecutive swaps, on both cursor disciplines.
-   final_state, swap_same, run_segments, init_state live in Lmmm/Spec.v. *)
+   hot_swap, final_state, swap_run are the model definitions of Lmmm/HotSwap.v; swap_same, run_segments,
+   init_state live in Lmmm/Spec.v. *)
 From Coq Require Import List ZArith NArith Bool.
 From Mimium Require Import StateTree.Model Lmmm.Syntax Lmmm.Ref Lmmm.Compile Lmmm.Machine Lmmm.Wf
-  Lmmm.Spec Lmmm.Swap Lmmm.Examples.
+  Lmmm.HotSwap Lmmm.Spec Lmmm.Swap Lmmm.Examples.
 Import ListNotations.
 
 (* hot-swapping the same program: plan = None => state words are cloned *)
 Theorem C06_plan_none : forall cp, plan (published_skeleton cp) (published_skeleton cp) = None.
 Proof. exact plan_none. Qed.
 
+(* hence HotSwap.hot_swap onto a program with the same skeleton clones the words (cursor 0, empty trace) *)
+Theorem C06_swap_same_clones : forall cp m, hot_swap cp cp m = Some (mkM (m_words m) 0%N []).
+Proof. exact hot_swap_same. Qed.
+
 (* running n samples, swapping, running m more = running n+m uninterrupted (now continues) *)
 Theorem C06_swap_identity : forall p cp rows1 rows2 m1,
   compile p = Some cp -> wf_prog p = true -> rows_ok p rows1 -> rows_ok p rows2 ->
   final_state VmD p cp 0%Z rows1 m0 = Some m1 ->
+  hot_swap cp cp m1 = Some (mkM (m_words m1) 0%N []) /\
   outs_of (mach_run VmD p cp 0%Z (rows1 ++ rows2) m0)
   = outs_of (mach_run VmD p cp 0%Z rows1 m0) ++
-    outs_of (mach_run VmD p cp (Z.of_nat (length rows1)) rows2 (swap_same m1)).
+    outs_of (mach_run VmD p cp (Z.of_nat (length rows1)) rows2 (mkM (m_words m1) 0%N [])).
 Proof. exact swap_identity. Qed.
+
+(* the same with HotSwap.swap_run (run rows1, hot-swap, run rows2), for the complete observation *)
+Theorem C06_swap_run_identity : forall p cp rows1 rows2,
+  compile p = Some cp -> wf_prog p = true -> rows_ok p rows1 ->
+  exists r, swap_run VmD p cp p cp rows1 rows2 = Some r /\
+    mach_run VmD p cp 0%Z (rows1 ++ rows2) m0 = mach_run VmD p cp 0%Z rows1 m0 ++ r.
+Proof. exact swap_run_identity. Qed.
 
 (* the same for the complete observation (outputs, state words, cursor, access trace), for both
    disciplines and any start time *)
@@ -34,7 +47,7 @@ Theorem C06_swap_identity_full : forall d p cp t0 rows1 rows2 m1,
     mach_run d p cp (t0 + Z.of_nat (length rows1))%Z rows2 (swap_same m1).
 Proof. exact swap_identity_full. Qed.
 
-(* k consecutive swaps: running the segments one after the other with a swap in between never faults
+(* k consecutive swaps (run_segments hot-swaps the unchanged program between the segments): never faults
    and produces the outputs of the uninterrupted run over the concatenated input rows *)
 Theorem C06_swaps_identity : forall d p cp (segs : list (list (list Z))),
   compile p = Some cp -> wf_prog p = true -> Forall (rows_ok p) segs ->
